@@ -18,6 +18,9 @@ verus! {
 pub type RequestId = i32;
 pub struct Control { pub x: u8 }
 pub struct RawControl { pub x: u8 }
+// the real types derive Clone; mirrored so that a change which clones instead of moving is still decided
+impl Clone for RawControl { #[verifier::external_body] fn clone(&self) -> (r: RawControl) ensures r == *self { unimplemented!() } }
+impl Clone for SearchOptions { #[verifier::external_body] fn clone(&self) -> (r: SearchOptions) ensures r == *self { unimplemented!() } }
 pub type MaybeControls = Option<Vec<RawControl>>;
 #[derive(Clone, Copy)]
 pub struct Duration { pub d: u64 }
